@@ -190,7 +190,8 @@ func FoldWords(v any) any {
 	case map[string]any:
 		out := make(map[string]any, len(x))
 		for k, c := range x {
-			if s, ok := c.(string); ok && (k == "Operator" || (k == "Type" && x["T"] == "CastExpression") || (k == "Type" && x["T"] == "JoinClause")) {
+			if s, ok := c.(string); ok && (k == "Operator" || k == "LockType" || k == "FetchType" ||
+				(k == "Type" && (x["T"] == "CastExpression" || x["T"] == "JoinClause" || x["T"] == "WindowFrame" || x["T"] == "WindowFrameBound"))) {
 				out[k] = strings.ToUpper(s)
 			} else {
 				out[k] = FoldWords(c)
